@@ -455,6 +455,48 @@ theorem Match_refines (t : baseTree) (node : Node) (hs : t.subtrees = node.subs)
       simp only [List.nil_append] at hloop
       rw [hloop]
 
+/-! ### hasMatchAllLeaf / hasMatchAllSubtree (asked when a route is added: at most one match-all per list, and it is last) -/
+
+theorem idx_last' {α : Type} [Inhabited α] (ls : List α) (x : α) (h : ls.getLast? = some x) :
+    GoSem.idx ls ((ls.length : Int) - 1) = x ∧ 0 < ls.length := by
+  have hne : ls ≠ [] := by intro e; subst e; simp at h
+  have hpos : 0 < ls.length := List.length_pos_iff.mpr hne
+  refine ⟨?_, hpos⟩
+  have h1 : ¬ ((ls.length : Int) - 1 < 0) := by omega
+  have h2 : ((ls.length : Int) - 1).toNat = ls.length - 1 := by omega
+  simp only [GoSem.idx, h1, if_false, h2]
+  rw [List.getLast?_eq_getElem?] at h
+  simp [List.getD_eq_getElem?_getD, h]
+
+theorem styleOf_all (p : Pat) : (Lib.styleOf p == 4) = p.isAll := by
+  cases p <;> rfl
+
+/-- `hasMatchAllLeaf` is the model's `lastIsAll` on the leaves -/
+theorem hasMatchAllLeaf_refines (t : baseTree) :
+    hasMatchAllLeaf t = (lastIsAll Leaf.pat t.leaves, t) := by
+  unfold hasMatchAllLeaf lastIsAll
+  cases hl : t.leaves.getLast? with
+  | none =>
+    have : t.leaves = [] := List.getLast?_eq_none_iff.mp hl
+    simp [this]
+  | some l =>
+    obtain ⟨hidx, hpos⟩ := idx_last' t.leaves l hl
+    have : decide ((t.leaves.length : Int) > 0) = true := by simp; omega
+    simp only [this, Bool.true_and, hidx, Lib.Leaf_getMatchStyle, styleOf_all]
+
+/-- `hasMatchAllSubtree` is the model's `lastIsAll` on the subtrees -/
+theorem hasMatchAllSubtree_refines (t : baseTree) :
+    hasMatchAllSubtree t = (lastIsAll Node.pat t.subtrees, t) := by
+  unfold hasMatchAllSubtree lastIsAll
+  cases hl : t.subtrees.getLast? with
+  | none =>
+    have : t.subtrees = [] := List.getLast?_eq_none_iff.mp hl
+    simp [this]
+  | some st =>
+    obtain ⟨hidx, hpos⟩ := idx_last' t.subtrees st hl
+    have : decide ((t.subtrees.length : Int) > 0) = true := by simp; omega
+    simp only [this, Bool.true_and, hidx, Lib.Tree_getMatchStyle, styleOf_all]
+
 /-! ### the definitions compute -/
 
 def demoEngine : Engine := ⟨fun _ => some 0, fun _ _ => none, fun _ _ => false⟩
